@@ -44,11 +44,24 @@ func hTimeFmt(c M) M {
 		o["api_ok"] = false
 		o["api_off"] = 0
 		o["api_str"] = ""
+		o["eq_runs"] = [][]int{}
+		o["ge_runs"] = [][]int{}
 		return o
 	}
 	o["api_ok"] = true
 	o["api_off"] = t.MidnightOffset().InMinutes()
 	o["api_str"] = t.ToString()
+	// equality and order against every other time value
+	var eq, ge runs
+	if parsed, pErr := klog.NewTimeFromString(str(c, "s")); pErr == nil {
+		for e := -1440; e <= 2879; e++ {
+			other, _ := timeFromOffset(e)
+			eq.add(e, parsed.IsEqualTo(other))
+			ge.add(e, parsed.IsAfterOrEqual(other))
+		}
+	}
+	o["eq_runs"] = eq.get()
+	o["ge_runs"] = ge.get()
 	if o["ok"] == false {
 		o["off"], o["h12"], o["str"] = 0, false, ""
 	}
